@@ -181,14 +181,14 @@ fn dec_assemble(groups: &[Buf; 3], order: &[usize], unknown_at: Option<usize>, f
 
 const PERMS: [[usize; 3]; 6] = [[0, 1, 2], [0, 2, 1], [1, 0, 2], [1, 2, 0], [2, 0, 1], [2, 1, 0]];
 
-/// all six field orders are accepted and give the same value
-pub fn dec_perms<V, R>()
+/// field orders PERMS[LO..HI] are accepted and give the same value (the generated harnesses cover 0..6)
+pub fn dec_perms<V, R, const LO: usize, const HI: usize>()
 where V: GT + VectorSpace, V::Scalar: GT, R: GT {
     let d: Decomposed<V, R> = GT::arb();
     let g = dec_groups(&d);
     let filler = g[0].t[1];
-    let mut p = 0;
-    while p < 6 {
+    let mut p = LO;
+    while p < HI {
         let b = dec_assemble(&g, &PERMS[p], None, filler);
         match de_all::<Decomposed<V, R>>(&b) {
             Some(y) => assert!(d.same(&y), "Decomposed: a permuted field order yields the same value"),
@@ -196,11 +196,11 @@ where V: GT + VectorSpace, V::Scalar: GT, R: GT {
         }
         p += 1;
     }
-    kani::cover!(p == 6, "reach_all_perms");
+    kani::cover!(p == HI && HI > LO && HI <= 6, "reach_all_perms");
 }
 
-/// each single omission and an unknown field (at any position) are rejected
-pub fn dec_rejects<V, R>()
+/// each single omission (with the two remaining fields in either order) is rejected
+pub fn dec_omissions<V, R>()
 where V: GT + VectorSpace, V::Scalar: GT, R: GT {
     let d: Decomposed<V, R> = GT::arb();
     let g = dec_groups(&d);
@@ -212,14 +212,26 @@ where V: GT + VectorSpace, V::Scalar: GT, R: GT {
         assert!(de_all::<Decomposed<V, R>>(&b).is_none(), "Decomposed: a missing field must be an error, not a default");
         p += 1;
     }
+    // sanity of the construction itself: the complete stream is accepted
+    let b = dec_assemble(&g, &PERMS[0], None, filler);
+    assert!(de_all::<Decomposed<V, R>>(&b).is_some(), "Decomposed: complete stream accepted");
+    kani::cover!(p == 6, "reach_all_omissions");
+}
+
+/// an unknown field (before, between or after the three known ones) is rejected
+pub fn dec_unknown<V, R>()
+where V: GT + VectorSpace, V::Scalar: GT, R: GT {
+    let d: Decomposed<V, R> = GT::arb();
+    let g = dec_groups(&d);
+    let filler = g[0].t[1];
     let mut at = 0;
     while at < 4 {
         let b = dec_assemble(&g, &PERMS[0], Some(at), filler);
         assert!(de_all::<Decomposed<V, R>>(&b).is_none(), "Decomposed: an unknown field must be an error");
         at += 1;
     }
-    // sanity of the construction itself: the unpermuted, complete stream is accepted
+    // sanity of the construction itself: without the unknown field the same stream is accepted
     let b = dec_assemble(&g, &PERMS[0], None, filler);
     assert!(de_all::<Decomposed<V, R>>(&b).is_some(), "Decomposed: complete stream accepted");
-    kani::cover!(at == 4, "reach_all_rejects");
+    kani::cover!(at == 4, "reach_all_unknown");
 }
